@@ -2,7 +2,10 @@
 
 package dhcp4_spoofer
 
-import "net/netip"
+import (
+	"net/netip"
+	"time"
+)
 
 // VerifLease is a value copy of a lease including the unexported subnet identity.
 type VerifLease struct {
@@ -28,4 +31,19 @@ func (h *Handler) VerifLeases() []VerifLease {
 		out = append(out, v)
 	}
 	return out
+}
+
+// VerifSetLeaseExpiry rewrites DHCPExpiry and OfferExpiry of the lease stored under clientID
+// (the handlers read time.Now() themselves; this is how a check moves a lease across the expiry
+// boundary). Reports whether such a lease exists. Compiled only with -tags verif.
+func (h *Handler) VerifSetLeaseExpiry(clientID []byte, t time.Time) bool {
+	h.Lock()
+	defer h.Unlock()
+	l := h.table[string(clientID)]
+	if l == nil {
+		return false
+	}
+	l.DHCPExpiry = t
+	l.OfferExpiry = t
+	return true
 }
